@@ -37,13 +37,14 @@ import subprocess
 import time
 from types import SimpleNamespace
 
-from lib import core
+from lib import core, pipeline
 from lib.coqgen import coq_str, coq_list, coq_bool, coq_Z
 
 ID = 'C11'
-COQ_CONE = ['Properties/C11.v']
+COQ_CONE = ['Properties/C11.v', 'Properties/Pipeline.v']
 EXTRACT = 'Extract/C11Extract.v'
 DRIVER = 'ocaml/C11_driver.ml'
+EXTRA_BINARIES = [pipeline.PIPELINE_BINARY]
 
 # readings fixed by the code's behaviour where the statement leaves a choice (copied to the evidence)
 AMBIGUITIES = [
@@ -1073,6 +1074,10 @@ def run(ctx, only_cases=None):
         pool.close()
         pool.join()
         gwf.setup({})
+    if only_cases is None:
+        k = 16 if ctx.quick else 150
+        ctx.rule += pipeline.TIE_RULE % k + ' (where jira_checks sits in the evaluation: C11_untouched)'
+        pipeline.tie(ctx, k)
 
 
 def replay(ctx, data):
